@@ -24,6 +24,7 @@ import (
 //   poll_sites          every call of checkContext / checkContextNow: (function, callee)
 //   ctxops_writes       every assignment to / increment of the field ctxOps: (function, statement)
 //   command_sites       every call of exec.Command / exec.CommandContext: (function, callee, guard)
+//   ctx_err_sites       every call of p.ctx.Err(): (function, enclosing if-conditions)
 func init() {
 	register(Gen{File: "DispatchLoop.v", Run: genDispatchLoop})
 }
@@ -89,6 +90,7 @@ func genDispatchLoop(repo string) (string, error) {
 	var loops []loop
 	var execSites, pollSites, opsWrites [][2]string
 	var cmdSites [][3]string
+	var ctxErrSites [][2]string
 	var dispatchHeader string
 	var dispatchHead, checkBody, nowBody, ecBody, exBody []string
 	stmts := func(list []ast.Stmt) []string {
@@ -197,6 +199,10 @@ func genDispatchLoop(repo string) (string, error) {
 							execSites = append(execSites, [2]string{fn, arg})
 						case "checkContext", "checkContextNow":
 							pollSites = append(pollSites, [2]string{fn, se.Sel.Name})
+						case "Err":
+							if in, ok := se.X.(*ast.SelectorExpr); ok && in.Sel.Name == "ctx" {
+								ctxErrSites = append(ctxErrSites, [2]string{fn, condsAt(x.Pos())})
+							}
 						case "Command", "CommandContext":
 							if id, ok := se.X.(*ast.Ident); ok && id.Name == "exec" {
 								cmdSites = append(cmdSites, [3]string{fn, se.Sel.Name, condsAt(x.Pos())})
@@ -278,6 +284,7 @@ func genDispatchLoop(repo string) (string, error) {
 	pairs("execute_sites", execSites)
 	pairs("poll_sites", pollSites)
 	pairs("ctxops_writes", opsWrites)
+	pairs("ctx_err_sites", ctxErrSites)
 	sb.WriteString("Definition command_sites : list (string * string * string) :=\n  [")
 	for i, x := range cmdSites {
 		if i > 0 {
